@@ -193,6 +193,8 @@ func buildNode(mn *mnode, r *rec, literal, useNew bool, src srcFns) *liveNode {
 		return mkS(S3{A: src.s(nm(0)), B: src.s(nm(1)), C: src.s(nm(2)), R: r}, useNew, r)
 	case kSArr:
 		return mkS(SArr{Values: arrS(), R: r}, useNew, r)
+	case kDiv:
+		return mkI(Div{A: src.i(nm(0)), B: src.i(nm(1)), R: r}, useNew, r)
 	case kSArr2:
 		var more []nodes.NodeOutput[string]
 		if literal && len(mn.arr2) > 0 {
